@@ -64,6 +64,7 @@ class FnSpec:
         self.extra_effectful = []
         self.not_effectful = []
         self.returns = None       # override for named-return
+        self.skipped = False      # body left out of this run because it is outside the verifier's subset (undecided, not trusted)
         self.is_item = False      # verbatim type/const item rather than a function
         self.what = None
         self.at = None
